@@ -31,7 +31,11 @@
 (* at least one group filter, when any are given, and its name by at least *)
 (* one name filter) - except for the one case the help text defines by     *)
 (* itself: a single -xt / -xst option excludes exactly the tests whose     *)
-(* group AND name match (XtDocumented).                                    *)
+(* group AND name match (XtDocumented).  Where that reading is left open,   *)
+(* the tests every reading agrees on stay bound (XtAgreed).  "Contains" is  *)
+(* the textbook HasSub of Strings.tla for EVERY text and EVERY name - in     *)
+(* particular a text that overlaps itself, behind a partial occurrence of   *)
+(* itself ("oop" in "Looop"); CmdLineLattice supplies the word registry.    *)
 (***************************************************************************)
 EXTENDS Integers, Sequences, FiniteSets, TLC, Strings
 
@@ -204,6 +208,11 @@ MatchAny(F, s) == F = {} \/ \E f \in F : Match(f, s)
 HasXt(cfg) == \E k \in 1..Len(cfg.fo) : cfg.fo[k].kind = "t" /\ cfg.fo[k].invert
 XtOnly(cfg) == Len(cfg.fo) = 1 /\ HasXt(cfg)
 SelectionSpecified(cfg) == ~HasXt(cfg) \/ (XtOnly(cfg) /\ XtDocumented)
+\* Even when the selection of a lone -xt/-xst is left open, its substring / strict meaning is not: every reading of "exclude
+\* group.name" excludes a test whose group AND name match and keeps a test of which neither matches.  Only the tests of which
+\* exactly one half matches are open.
+XtAgreed(t, cfg) == XtOnly(cfg) /\ LET o == cfg.fo[1] IN Match(Filt(o.g, o.strict, FALSE), t.g) = Match(Filt(o.n, o.strict, FALSE), t.n)
+SelectionKnown(t, cfg) == SelectionSpecified(cfg) \/ XtAgreed(t, cfg)
 Selected(t, cfg) ==
     IF XtOnly(cfg) THEN LET o == cfg.fo[1] IN
          ~(Match(Filt(o.g, o.strict, FALSE), t.g) /\ Match(Filt(o.n, o.strict, FALSE), t.n))     \* "exclude tests whose group and name ..."
